@@ -13,6 +13,8 @@
 #include <string.h>
 typedef uint8_t u8; typedef uint16_t u16; typedef uint32_t u32; typedef uint64_t u64; typedef unsigned __int128 u128;
 typedef int8_t i8; typedef int16_t i16; typedef int32_t i32; typedef int64_t i64; typedef __int128 i128;
+/* by-value aggregates returned by modelled callees: same names as ir2c generates (agg<size>_<align>) */
+typedef struct { u8 b[16]; } __attribute__((aligned(8))) agg16_8;
 
 #ifdef NATIVE
 #include <stdio.h>
